@@ -26,7 +26,6 @@ Inductive method := Nearest | Linear.
 (* round(sqrt(n)) and floor(sqrt(n)) for a natural n *)
 Definition round_sqrt (n : nat) : nat :=
   let s := Nat.sqrt n in if s * s + s <? n then s + 1 else s.
-Definition dist (a b : nat) : nat := if a <=? b then b - a else a - b.
 
 (* r^2 of the quadrant pixel [a][b] (x = b, y = y0 - a) *)
 Definition r2n (g : geom) (a b : nat) : nat := b * b + dist a (g_y0 g) * dist a (g_y0 g).
@@ -76,16 +75,16 @@ Section Fit.
 
   (* folded weights Qw (times Qsin when use_sin) as a function of the
      quadrant pixel; W = None stands for the all-ones array *)
-  Definition QW (g : geom) (use_sin : bool) (W : option img) (a b : nat) : A :=
+  Definition QW (g : geom) (use_sin : bool) (W : option img) : nat -> nat -> A :=
     let Wt := match W with Some Wt => Wt | None => ones (g_h g) (g_w g) end in
-    let q := px zero (fold_image zero add g Wt) a b in
-    if use_sin then mul (qsin g a b) q else q.
+    let F := fold_image zero add g Wt in
+    fun a b => let q := px zero F a b in if use_sin then mul (qsin g a b) q else q.
 
   (* folded weighted image Q (times Qsin when use_sin) *)
-  Definition QD (g : geom) (use_sin : bool) (W : option img) (IM : img) (a b : nat) : A :=
+  Definition QD (g : geom) (use_sin : bool) (W : option img) (IM : img) : nat -> nat -> A :=
     let X := match W with Some Wt => imul Wt IM | None => IM end in
-    let q := px zero (fold_image zero add g X) a b in
-    if use_sin then mul (qsin g a b) q else q.
+    let F := fold_image zero add g X in
+    fun a b => let q := px zero F a b in if use_sin then mul (qsin g a b) q else q.
 
   (* one quadrant pixel's share in the integrals of radius r:
      (weight, cos value, weighted datum) *)
@@ -147,7 +146,8 @@ Section Fit.
 
   Definition distr_cos (meth : method) (g : geom) (use_sin : bool) (W : option img) (IM : img)
     : list (option (list A)) :=
-    map (fun r => coeffs (g_N g) (distr_pixels meth g use_sin W IM r)) (seq 0 (g_rmax g + 1)).
+    let wq := QW g use_sin W in let dq := QD g use_sin W IM in
+    map (fun r => coeffs (g_N g) (pixels meth g wq dq r)) (seq 0 (g_rmax g + 1)).
 
   Definition distr_valid (meth : method) (g : geom) (use_sin : bool) (W : option img) : list bool :=
     map (fun r => valid (g_N g) (pixels meth g (QW g use_sin W) (fun _ _ => zero) r))
